@@ -1053,16 +1053,11 @@ _has_traits_trait(has_traits_object *obj, PyObject *args)
             Py_DECREF(trait);
             break;
         }
+        /* The name is mapped on behalf of the object that holds the
+           deferring trait of this hop (see 'setattr_delegate'). */
+        daname2 = trait->delegate_attr_name(trait, delegate, daname);
         Py_DECREF(delegate);
         delegate = temp_delegate;
-
-        if (!PyHasTraits_Check(delegate)) {
-            bad_delegate_error2(obj, name);
-            Py_DECREF(trait);
-            break;
-        }
-
-        daname2 = trait->delegate_attr_name(trait, obj, daname);
         Py_DECREF(daname);
         daname = daname2;
         Py_DECREF(trait);
@@ -1071,6 +1066,11 @@ _has_traits_trait(has_traits_object *obj, PyObject *args)
                that is not a string): propagate the exception. */
             Py_DECREF(delegate);
             return NULL;
+        }
+
+        if (!PyHasTraits_Check(delegate)) {
+            bad_delegate_error2(obj, name);
+            break;
         }
         if (((delegate->itrait_dict == NULL)
              || ((trait = (trait_object *)dict_getitem(
@@ -2649,22 +2649,25 @@ setattr_delegate(
                 return -1;
             }
         }
+        /* The name is mapped on behalf of the object that holds the
+           deferring trait of this hop (with the '*' prefix style it is that
+           object's class '__prefix__' that is used), exactly as
+           'getattr_delegate' does when the chain is read. */
+        daname2 = traitd->delegate_attr_name(traitd, delegate, daname);
         Py_DECREF(delegate);
         delegate = temp_delegate;
+        Py_DECREF(daname);
+        daname = daname2;
+        if (daname == NULL) {
+            Py_DECREF(delegate);
+            return -1;
+        }
 
         // Verify that 'delegate' is of type 'CHasTraits':
         if (!PyHasTraits_Check(delegate)) {
             Py_DECREF(delegate);
             Py_DECREF(daname);
             return bad_delegate_error2(obj, name);
-        }
-
-        daname2 = traitd->delegate_attr_name(traitd, obj, daname);
-        Py_DECREF(daname);
-        daname = daname2;
-        if (daname == NULL) {
-            Py_DECREF(delegate);
-            return -1;
         }
         if (((delegate->itrait_dict == NULL)
              || ((traitd = (trait_object *)dict_getitem(
